@@ -239,6 +239,8 @@ Proof.
   intros Hw Hsz. unfold extractWP.
   rewrite N.land_spec, tb_bitMaskRange.
   replace (j - 0) with j by lia.
+  replace (0 <=? j) with true by (symmetry; apply N.leb_le; lia).
+  bsimpl.
   destruct (N.ltb_spec j size); bsimpl.
   2:{ rewrite !andb_false_r. reflexivity. }
   destruct (N.ltb_spec j 64); [|lia]. bsimpl. rewrite andb_true_r.
@@ -327,11 +329,11 @@ Qed.
 
 (* ---- setRange ---- *)
 Lemma length_fillw w k n c : length (fillw w k n c) = length w.
-Proof. revert w k; induction n as [|n IH]; intros w k; bsimpl; [reflexivity|]. rewrite IH. apply length_setw. Qed.
+Proof. revert w k; induction n as [|n IH]; intros w k; cbn [fillw]; [reflexivity|]. rewrite IH. apply length_setw. Qed.
 
 Lemma wordsok_fillw w k n c : wordsok w -> lt64 c -> wordsok (fillw w k n c).
 Proof.
-  revert w k; induction n as [|n IH]; intros w k Hw Hc; bsimpl; [exact Hw|].
+  revert w k; induction n as [|n IH]; intros w k Hw Hc; cbn [fillw]; [exact Hw|].
   apply IH; [apply wordsok_setw; assumption | exact Hc].
 Qed.
 
@@ -341,7 +343,7 @@ Lemma wbit_fillw w k n c i :
   = if (k <=? i / 64) && (i / 64 <? k + N.of_nat n) then N.testbit c (i mod 64) else wbit w i.
 Proof.
   revert w k; induction n as [|n IH]; intros w k H.
-  - bsimpl. cmp_cases; bool_close.
+  - cbn [fillw]. cmp_cases; bool_close.
   - cbn [fillw]. rewrite IH by (rewrite wlen_setw; lia). rewrite wbit_setw.
     destruct (N.eqb_spec (i / 64) k) as [E | E].
     + rewrite E. destruct (N.ltb_spec k (wlen w)); [|lia]. cmp_cases; bool_close.
@@ -374,49 +376,54 @@ Proof.
   repeat first [apply wordsok_insertNSP | apply wordsok_fillw]; assumption.
 Qed.
 
+Lemma wbit_insertNSP_content w start size (b : bool) i :
+  wordsok w -> start mod 64 + size <= 64 -> start + size <= 64 * wlen w ->
+  wbit (insertNSP w start size (if b then not64 0 else 0)) i
+  = if (start <=? i) && (i <? start + size) then b else wbit w i.
+Proof.
+  intros Hw Hns Hin. rewrite wbit_insertNSP by assumption.
+  destruct ((start <=? i) && (i <? start + size)) eqn:E; [|reflexivity].
+  apply andb_true_iff in E. destruct E as [E1 E2]. apply N.leb_le in E1. apply N.ltb_lt in E2.
+  apply tb_content. lia.
+Qed.
+
 Lemma wbit_setRangeP w off size b i :
   wordsok w -> off + size <= 64 * wlen w ->
   wbit (setRangeP w off size b) i = if (off <=? i) && (i <? off + size) then b else wbit w i.
 Proof.
   intros Hw Hin. pose proof (lt64_content b) as Hc. unfold setRangeP.
-  set (c := if b then not64 0 else 0) in *.
   assert (Hi64 : i mod 64 < 64) by lia.
   destruct (N.eqb_spec (off mod 64) 0) as [Ha | Ha]; cbn [fst snd].
   - (* aligned start *)
     replace (size - 0) with size by lia.
     destruct (N.ltb_spec 0 (size mod 64)) as [Ht | Ht].
-    + rewrite wbit_insertNSP.
+    + rewrite wbit_insertNSP_content.
       * rewrite wbit_fillw by (rewrite N2Nat.id; lia). rewrite N2Nat.id.
-        unfold c at 1. rewrite tb_content by lia. unfold c. rewrite tb_content by exact Hi64.
+        rewrite tb_content by exact Hi64.
         cmp_cases; bool_close.
       * apply wordsok_fillw; assumption.
       * lia.
       * unfold wlen. rewrite length_fillw. fold (wlen w). lia.
     + rewrite wbit_fillw by (rewrite N2Nat.id; lia). rewrite N2Nat.id.
-      unfold c. rewrite tb_content by exact Hi64.
+      rewrite tb_content by exact Hi64.
       cmp_cases; bool_close.
   - (* unaligned start *)
     set (f := N.min size (64 - off mod 64)).
     assert (Hf : f <= size /\ f <= 64 - off mod 64 /\ (f = size \/ f = 64 - off mod 64)) by (subst f; lia).
-    set (w1 := insertNSP w off f c).
+    set (w1 := insertNSP w off f (if b then not64 0 else 0)).
     assert (Hw1 : wordsok w1) by (apply wordsok_insertNSP; exact Hw).
     assert (Hl1 : wlen w1 = wlen w) by (unfold wlen, w1; rewrite length_insertNSP; reflexivity).
-    assert (B1 : forall x, wbit w1 x = if (off <=? x) && (x <? off + f) then N.testbit c (x - off) else wbit w x).
-    { intro x. apply wbit_insertNSP; [exact Hw | lia | lia]. }
+    assert (B1 : forall x, wbit w1 x = if (off <=? x) && (x <? off + f) then b else wbit w x).
+    { intro x. apply wbit_insertNSP_content; [exact Hw | lia | lia]. }
     destruct (N.ltb_spec 0 ((size - f) mod 64)) as [Ht | Ht].
-    + rewrite wbit_insertNSP.
+    + rewrite wbit_insertNSP_content.
       * rewrite wbit_fillw by (rewrite N2Nat.id, Hl1; lia). rewrite N2Nat.id, B1.
-        unfold c at 1. rewrite tb_content by lia.
-        unfold c at 1. rewrite tb_content by exact Hi64.
-        destruct ((off <=? i) && (i <? off + f)) eqn:E1.
-        -- unfold c. rewrite tb_content by lia. revert E1. cmp_cases; bool_close; intros; try discriminate.
-        -- revert E1. cmp_cases; bool_close; intros; try discriminate.
+        rewrite tb_content by exact Hi64.
+        cmp_cases; bool_close.
       * apply wordsok_fillw; assumption.
       * lia.
       * unfold wlen. rewrite length_fillw. fold (wlen w1). lia.
     + rewrite wbit_fillw by (rewrite N2Nat.id, Hl1; lia). rewrite N2Nat.id, B1.
-      unfold c at 1. rewrite tb_content by exact Hi64.
-      destruct ((off <=? i) && (i <? off + f)) eqn:E1.
-      * unfold c. rewrite tb_content by lia. revert E1. cmp_cases; bool_close; intros; try discriminate.
-      * revert E1. cmp_cases; bool_close; intros; try discriminate.
+      rewrite tb_content by exact Hi64.
+      cmp_cases; bool_close.
 Qed.
